@@ -60,3 +60,8 @@ CLAIMS["C08"] = proof("C08", "Generic theory kernel-checked: fail-soft alpha-bet
 CLAIMS["C09"] = proof("C09", "Generic theory kernel-checked for EVERY schedule: tasks as read/write resumptions over a shared cache; under 'key determines value' every finished task returns the pure value of its root move, the cache stays sound, no task can block, every partial schedule extends to a complete one with the same answers; the hypothesis is shown necessary (two schedules disagree with the original (hash, alpha, beta) key). Runtime: the real search in pools of 1..64 threads under seeded schedule perturbation at every hook point, with an observer that flags any cache key written with two values. OS-level preemption inside locks and rayon's work stealing are below the model's granularity.",
                       "Rocq proof over all interleavings of the resumption model + perturbed-schedule runs of the real search with a cache-write observer")
 
+
+CLAIMS["C04"] = proof("C04", "Kernel-checked over the model: for every table, every well-formed board and every move object that applies (any kind; an en-passant object must capture an enemy pawn, which every generated one does), undo returns the STRUCTURALLY identical board - all 14 bitboards, turn, the three stacks, move counter, key, repetition map and stack - and so do sequences of any length undone in reverse order, with or without the turn toggled between plies; generation, annotation, verdicts, scoring and the recursive search return the caller's board (GenFrame, SearchFrame). Tied to the code by full snapshots around every apply/undo of generated walks and trees.",
+                      "Rocq proof (inverse lemmas for put/remove and the stack operations, induction over move sequences) + snapshot equality on the real code + correspondence")
+CLAIMS["C07"] = proof("C07", "Kernel-checked over the model, relative to the model's own generator: depth 0 gives DepthTooLow, an empty legal list gives NoAvailableMoves, otherwise the answer is a member of the generated legal list and the board returned is the caller's; under the board invariant the search never panics; termination is structural. That the generated list is the FIDE legal list is C01 (correspondence + partial refinement). Runtime: real searches at depths 0..3 in pools of 1..64 threads under catch_unwind, answer checked against the rules' legal set and full board snapshots compared.",
+                      "Rocq proof (sort permutations, board-threading induction over depth, totality under the invariant) + correspondence of the real search with the rules' legal set")
